@@ -143,7 +143,7 @@ func init() {
 		Decides: "the ordering protocol crash-consistency rests on, on every path of the anchored functions: WriteAtomic = write(tmp)→fsync→close→rename→fsync(dir); " +
 			"Write syncs before success; LocalFile/seqWriter close paths sync and the seqSynced flag is reset by every write; part metadata (the commit record) is written last and atomically in mustFlush/FinishSync/mergeParts (M,S,T,X); " +
 			"snapshot manifests are written atomically, before garbage registration; only registerSnapshot feeds the delete list; flushed/merged/synced introductions persist the manifest before close(applied); " +
-			"a failed merge removes its output on every exit; startup keeps a part only if its name parses and its metadata validates, tries snapshots newest-first; raw os file mutation stays out of the engine packages; WriteAtomic opens its temporary sibling truncated (a tmp left by a crashed attempt cannot leak its tail); on trace recovery the secondary index is told the MANIFEST's part list, not the directory scan; a segment whose metadata file exists but is empty is discarded as half-born, never handed to the parser.",
+			"a failed merge removes its output on every exit; startup keeps a part only if its name parses and its metadata validates, tries snapshots newest-first; raw os file mutation stays out of the engine packages; WriteAtomic opens its temporary sibling truncated (a tmp left by a crashed attempt cannot leak its tail); on trace recovery the secondary index is told the MANIFEST's part list, not the directory scan; a segment whose metadata file exists but is empty is discarded as half-born, never handed to the parser.; in the trace introductions the transitions that pin the superseded core and secondary-index snapshots are released only after the new manifest is persisted (never by a direct call before persistSnapshot)",
 		NotDecided: "that the state found after a crash is a prefix of acknowledged batches; kernel power-loss semantics; torn writes inside one write(2).",
 		Technique:  "CFG must-pass-through / dominance ordering rules on SSA with interprocedural definitely-calls summaries; who-may-call and field-write confinement; value-world pruning (zero-length metadata file); constant open flags; SSA def-use of the list handed to the secondary index",
 		Run:        runC04,
@@ -595,6 +595,47 @@ func runC04(c *core.Ctx) {
 		}
 		r.Stat("functions_scanned_raw_os", nfun)
 		r.Hold(rule, "engine packages", "", fmt.Sprintf("%d functions scanned; %d raw calls, all in exempt files (migration_*, benchmark_*, failed_parts_handler)", nfun, nsites))
+	}
+
+	// trace: the transitions pin the superseded core and sidx snapshots; releasing them deletes the replaced
+	// parts, so it must not happen before the manifest that supersedes them is persisted
+	{
+		rule := "c04.release-after-persist"
+		persist := call("(*" + sibT.pkg + ".tsTable).persistSnapshot")
+		isRelease := func(in ssa.Instruction) bool {
+			c, ok := in.(*ssa.Call) // a deferred Release runs at function exit, after everything else
+			if !ok {
+				return false
+			}
+			n := ssax.CalleeName(c.Common())
+			return strings.HasPrefix(n, "(*banyand/internal/snapshot.Transition[") && strings.HasSuffix(n, ").Release")
+		}
+		n := 0
+		for _, f := range r.P.ModuleFuncs(sibT.pkg) {
+			if f.Parent() != nil || len(ssax.Find(f, persist.M)) == 0 {
+				continue
+			}
+			uses := len(ssax.FindDeep(f, func(in ssa.Instruction) bool {
+				cc := ssax.Common(in)
+				if cc == nil {
+					return false
+				}
+				nm := ssax.CalleeName(cc)
+				return strings.HasPrefix(nm, "(*banyand/internal/snapshot.Transition[") && strings.HasSuffix(nm, ").Release")
+			})) > 0
+			if !uses {
+				continue
+			}
+			n++
+			construct := ssax.FuncName(f) + ": superseded snapshots released only after persistSnapshot"
+			if tgt, path, found := (ssax.Search{Target: isRelease, Avoid: persist.M}).From(f, nil); found {
+				r.Violate(rule, construct, r.pos(tgt), fmt.Sprintf("the transition is released at %s before the new manifest is persisted (blocks %s): the replaced parts (for the secondary index the transition holds the only reference) are deleted while the durable manifest still names them; a crash in that window recovers to a manifest whose index parts are gone", r.pos(tgt), blocksStr(path)))
+			} else {
+				r.Hold(rule, construct, r.fpos(f), "releases are deferred or follow persistSnapshot")
+			}
+		}
+		r.Floor(rule, 3)
+		_ = n
 	}
 
 	// recovery: the secondary index is told which parts are live from the MANIFEST, not from the directory scan
